@@ -6,6 +6,7 @@ package main
 import (
 	"fmt"
 	"os"
+	"runtime/pprof"
 )
 
 type cmdFunc func(args []string) int
@@ -21,6 +22,16 @@ func main() {
 	if !ok {
 		fmt.Fprintln(os.Stderr, "unknown command", os.Args[1])
 		os.Exit(2)
+	}
+	if pf := os.Getenv("VERIF_CPUPROF"); pf != "" {
+		fh, err := os.Create(pf)
+		if err == nil {
+			pprof.StartCPUProfile(fh)
+			rc := f(os.Args[2:])
+			pprof.StopCPUProfile()
+			fh.Close()
+			os.Exit(rc)
+		}
 	}
 	os.Exit(f(os.Args[2:]))
 }
